@@ -11,6 +11,7 @@ Definition kinds_ok (s : opspec) : bool :=
   match os_ok s, os_ck s with
   | OpPlain, CkNone => true
   | OpRetsub, CkNone => true
+  | OpReturn, CkNone => true
   | OpBnz2B, CkBranch2B | OpBz2B, CkBranch2B | OpB2B, CkBranch2B | OpCallsub2B, CkBranch2B =>
       N.eqb (os_size s) 3
   | OpBnzV, CkBranchVarint | OpBzV, CkBranchVarint | OpBV, CkBranchVarint | OpCallsubV, CkBranchVarint =>
@@ -394,6 +395,11 @@ Section Agree.
       apply Nat.eqb_eq in Hn. subst nextpc.
       apply Forall_cons_iff in Hcalls. destruct Hcalls as [Hr Hrest]. split; [|assumption].
       destruct (Nat.eqb r 0); [now subst next | assumption].
+    - (* return *)
+      inversion Hrc; subst nx ts thr. simpl in Hnext.
+      apply andb_true_iff in Hctl. destruct Hctl as [Hn Hc]. apply calls_eqb_eq in Hc. subst calls'.
+      apply Nat.eqb_eq in Hn. subst nextpc. split; [|assumption].
+      destruct (Nat.eqb (length prog) 0); [now subst next | right; lia].
     - (* intcblock *)
       destruct (parse_int_imm prog (S pc)) as [nx0|]; [|discriminate].
       inversion Hrc; subst nx ts thr.
@@ -490,3 +496,56 @@ Section AgreeEval.
   Qed.
 
 End AgreeEval.
+
+(* the reference op family conforms: the hypothesis [Hopf] of check_eval_agree is satisfiable *)
+Lemma calls_eqb_refl : forall a, calls_eqb a a = true.
+Proof. induction a as [|x a IH]; simpl; [reflexivity | now rewrite Nat.eqb_refl, IH]. Qed.
+
+Lemma ref_opf_conforms : forall lsv max_bytes v s prog st stack' n calls' pool' w',
+    ref_opf lsv max_bytes v s prog st = OOk unit stack' n calls' pool' w' ->
+    ctl_allowed lsv max_bytes v s prog (st_pc unit st) (st_calls unit st) n calls' = true.
+Proof.
+  intros lsv max_bytes v s prog st stack' n calls' pool' w' H.
+  unfold ref_opf in H. unfold ctl_allowed.
+  destruct (os_ok s).
+  - inversion H; subst. now rewrite Nat.eqb_refl, calls_eqb_refl.
+  - inversion H; subst. now rewrite Nat.eqb_refl, calls_eqb_refl.
+  - inversion H; subst. now rewrite Nat.eqb_refl, calls_eqb_refl.
+  - destruct (branch_target_2b v prog (st_pc unit st)); [|discriminate]. inversion H; subst.
+    now rewrite Nat.eqb_refl, calls_eqb_refl.
+  - destruct (branch_target_2b v prog (st_pc unit st)); [|discriminate]. inversion H; subst.
+    now rewrite Nat.eqb_refl, calls_eqb_refl.
+  - destruct (branch_target_varint prog (st_pc unit st)) as [[[t|] isz]|]; try discriminate. inversion H; subst.
+    now rewrite Nat.eqb_refl, calls_eqb_refl, orb_true_r.
+  - destruct (branch_target_varint prog (st_pc unit st)) as [[[t|] isz]|]; try discriminate. inversion H; subst.
+    now rewrite Nat.eqb_refl, calls_eqb_refl, orb_true_r.
+  - destruct (branch_target_varint prog (st_pc unit st)) as [[[t|] isz]|]; try discriminate. inversion H; subst.
+    now rewrite Nat.eqb_refl, calls_eqb_refl.
+  - destruct (branch_target_varint prog (st_pc unit st)) as [[[t|] isz]|]; try discriminate. inversion H; subst.
+    now rewrite Nat.eqb_refl, calls_eqb_refl.
+  - destruct (Nat.leb (length prog) (S (st_pc unit st))); [discriminate|].
+    destruct (switch_target prog (st_pc unit st) _) as [t|] eqn:Et; [|discriminate]. inversion H; subst.
+    rewrite calls_eqb_refl, andb_true_r. apply existsb_exists.
+    exists (N.to_nat (byte_at prog (S (st_pc unit st)))). split; [apply in_seq; lia|].
+    rewrite Et. apply Nat.eqb_refl.
+  - destruct (Nat.leb (length prog) (S (st_pc unit st))); [discriminate|].
+    destruct (switch_target prog (st_pc unit st) _) as [t|] eqn:Et; [|discriminate]. inversion H; subst.
+    rewrite calls_eqb_refl, andb_true_r. apply existsb_exists.
+    exists (N.to_nat (byte_at prog (S (st_pc unit st)))). split; [apply in_seq; lia|].
+    rewrite Et. apply Nat.eqb_refl.
+  - destruct (st_calls unit st) as [|r rest]; [discriminate|]. inversion H; subst.
+    now rewrite Nat.eqb_refl, calls_eqb_refl.
+  - inversion H; subst. now rewrite Nat.eqb_refl, calls_eqb_refl.
+  - destruct (parse_int_imm prog (S (st_pc unit st))); [|discriminate]. inversion H; subst.
+    now rewrite Nat.eqb_refl, calls_eqb_refl.
+  - destruct (byte_imm_args lsv max_bytes prog (st_pc unit st)); [|discriminate]. inversion H; subst.
+    now rewrite Nat.eqb_refl, calls_eqb_refl.
+  - destruct (parse_int_imm prog (S (st_pc unit st))); [|discriminate]. inversion H; subst.
+    now rewrite Nat.eqb_refl, calls_eqb_refl.
+  - destruct (byte_imm_args lsv max_bytes prog (st_pc unit st)); [|discriminate]. inversion H; subst.
+    now rewrite Nat.eqb_refl, calls_eqb_refl.
+  - destruct (push_int_next prog (st_pc unit st)); [|discriminate]. inversion H; subst.
+    now rewrite Nat.eqb_refl, calls_eqb_refl.
+  - destruct (push_bytes_next prog (st_pc unit st)); [|discriminate]. inversion H; subst.
+    now rewrite Nat.eqb_refl, calls_eqb_refl.
+Qed.
